@@ -93,7 +93,9 @@ M = [
     ("C10_insert_appends", ["C10"], UL, "        super().insert(i, item._A)", "        super().insert(len(self), item._A)"),
     ("C10_setitem_no_len_guard", ["C10"], UL, "        if len(value) > 1:\n            raise ValueError(\"can't insert a multivalued element - must have len() == 1\")\n        self.data[i] = value.A",
      "        self.data[i] = value.A"),
-    ("C10_slice_negative_step", ["C10"], UL, "            data = self.data[i]\n", "            data = self.data[i] if (i.step or 1) > 0 else self.data[i][::-1]\n"),
+    ("C10_slice_negative_step", ["C10"], UL, "            return self._new(self.data[i])\n", "            return self._new(self.data[i] if (i.step or 1) > 0 else self.data[i][::-1])\n"),
+    ("C10_getitem_revalidates", ["C10"], UL, "            return self._new([self.data[i]])", "            return self.__class__(self.data[i])"),
+    ("C10_alloc_shares_identity", ["C10", "C17"], UL, "        x.data = [cls._identity() for i in range(n)]  # make n copies of the data", "        x.data = [cls._identity()] * n  # make n copies of the data"),
     # C11 interpolation
     ("C11_slerp_no_flip", ["C11"], BQ, "        if dotprod < 0:\n            q0 = -q0   # pylint: disable=invalid-unary-operand-type\n            dotprod = -dotprod", "        if dotprod < 0:\n            dotprod = -dotprod"),
     ("C11_trinterp_translation_swapped", ["C11"], B3, "            pr = p0 * (1 - s) + s * p1\n\n        return base.rt2tr(base.q2r(qr), pr)", "            pr = p0 * s + (1 - s) * p1\n\n        return base.rt2tr(base.q2r(qr), pr)"),
@@ -123,7 +125,8 @@ M = [
     ("C15_transl_truncates", ["C15"], B3, "    elif base.isvector(x, 3):\n        t = base.getvector(x, 3, out='array')", "    elif base.isvector(x) and len(base.getvector(x)) >= 3:\n        t = base.getvector(x)[:3]"),
     # C16 symbolic
     ("C16_sym_cos_mul", ["C16"], SY, "def cos(theta):", "def cos(theta):\n    if _symbolics and isinstance(theta, sympy.Mul):\n        return sympy.sin(theta)"),
-    ("C16_transl_float", ["C16"], B3, "    T = np.identity(4, dtype=t.dtype)\n    T[:3, 3] = t\n    return T", "    T = np.identity(4, dtype=t.dtype)\n    T[:3, 3] = t\n    if t.dtype.kind == 'O':\n        T[3, 3] = 1.0 * T[3, 3] + 0 * t[0]\n    return T"),
+    ("C16_r2t_float_for_object", ["C16"], BN, "        T = np.zeros((n, n), dtype='O')", "        T = np.zeros((n, n))"),
+    ("C16_trinv_numeric_transpose", ["C16"], B3, "    Ti[:3, 3] = -R.T @ t\n    Ti[3,3] = 1", "    Ti[:3, 3] = -R.T @ t if T.dtype.kind != 'O' else -R @ t\n    Ti[3,3] = 1"),
     # C17 no mutation
     ("C17_unitvec_inplace", ["C17"], BV, "    v = getvector(v)\n    n = norm(v)\n\n    if n > 100 * _eps:  # if greater than eps\n        return v / n", "    v = np.asarray(v, dtype=float) if isinstance(v, np.ndarray) and v.ndim == 1 else getvector(v)\n    n = norm(v)\n\n    if n > 100 * _eps:  # if greater than eps\n        v /= n\n        return v"),
     ("C17_se3_inv_inplace", ["C17"], P3, "            return SE3([base.trinv(x) for x in self.A], check=False)", "            out = []\n            for x in self.A:\n                x[:] = base.trinv(x)\n                out.append(x)\n            return SE3(out, check=False)"),
@@ -139,7 +142,7 @@ M = [
     ("C19_pq_moment", ["C19"], G, "        v = np.cross(P - Q, P)\n", "        v = np.cross(P, P - Q)\n"),
     ("C19_closest_no_unit", ["C19"], G, "        lam = np.dot(x - self.pp, self.uw)", "        lam = np.dot(x - self.pp, self.w)"),
     ("C19_rmul_skew_sign", ["C19", "C08"], G, "            A = np.r_[ np.c_[left.R,          base.skew(-left.t) @ left.R],", "            A = np.r_[ np.c_[left.R,          base.skew(left.t) @ left.R],"),
-    ("C19_commonperp_term", ["C19"], G, "            v = np.cross(l1.v, l2.w) - np.cross(l2.v, l1.w) + \\", "            v = np.cross(l1.v, l2.w) + np.cross(l2.v, l1.w) + \\"),
+    ("C19_commonperp_term", ["C19"], G, "            foot = l1.pp + t1 * l1.uw", "            foot = l1.pp - t1 * l1.uw"),
     ("C19_planes_moment", ["C19"], G, "        v = pi2.d * pi1.n - pi1.d * pi2.n", "        v = pi1.d * pi1.n - pi2.d * pi2.n"),
     # C20 spatial
     ("C20_crf_sign", ["C20"], SV, "            return SpatialForce(-vcross.T @ other.A)      # x* operator (crf)", "            return SpatialForce(vcross.T @ other.A)      # x* operator (crf)"),
